@@ -7,6 +7,7 @@ from typing import Dict, List, Optional, Set, Tuple
 
 from ..core import AnalysisError, RuleSpec
 from ..pymodel import call_name
+from .. import astq
 
 EXPLANATION = (
     "Rules on the extracted model of the statement-dispatch loop (E5) and on the attribute "
@@ -43,93 +44,160 @@ EXPECTED_PERM = {
 }
 
 
+def _type_ctx_value(py, cs, e, is_type: bool) -> Optional[bool]:
+    """truth of one path condition of `e` in the context 'self is (not) a FortranType'; None = unrelated"""
+    def ev(t: ast.AST) -> Optional[bool]:
+        if isinstance(t, ast.UnaryOp) and isinstance(t.op, ast.Not):
+            v = ev(t.operand)
+            return None if v is None else not v
+        if isinstance(t, ast.Call) and call_name(t) == "isinstance" and len(t.args) == 2 and ast.unparse(t.args[0]) == "self" \
+                and ast.unparse(t.args[1]) == "FortranType":
+            return is_type
+        if isinstance(t, ast.Name):
+            for _, v in astq.assignments(cs.fn, t.id):
+                if v is not None:
+                    r = ev(v)
+                    if r is not None:
+                        return r
+        if isinstance(t, ast.BoolOp):
+            vals = [ev(v) for v in t.values]
+            if isinstance(t.op, ast.And):
+                if any(v is False for v in vals):
+                    return False
+                return True if all(v is True for v in vals) else None
+            if any(v is True for v in vals):
+                return True
+            return False if all(v is False for v in vals) else None
+        return None
+    return ev
+
+
+def _feasible(py, cs, e, is_type: bool) -> bool:
+    ev = _type_ctx_value(py, cs, e, is_type)
+    for test, pol, _ in e.conds:
+        v = ev(test)
+        if v is not None and v != pol:
+            return False
+    return True
+
+
+def _values(py, cs, events, target: str, is_type: bool) -> List[str]:
+    """source texts assigned to `target` on the paths feasible in the given context (helper calls already inlined)"""
+    out = []
+    for e in events:
+        if e.kind == "assign" and e.target == target and e.value is not None and _feasible(py, cs, e, is_type):
+            if isinstance(e.value, ast.Call) and any(x.kind == "inline" and x.node is e.value for x in events):
+                continue      # the inlined helper's returns are reported separately
+            v = e.value
+            while isinstance(v, ast.IfExp):
+                tv = _type_ctx_value(py, cs, e, is_type)(v.test)
+                if tv is None:
+                    break
+                v = v.body if tv else v.orelse
+            out.append(ast.unparse(v).replace('"', "'"))
+    return out
+
+
 def r1_plumbing(ctx, rep):
     py, cs = ctx.py, ctx.cascade
+    res = astq.class_method_resolver(py, "FortranContainer", "sourceform")
+    # the tracked child default: the local that the bare access arm assigns
+    b = cs.arm_by_literal("private")
+    bev = astq.trace_block(b.body, cs.fn, res)
+    child_vars = sorted({e.target for e in bev if e.kind == "assign" and e.target in cs.carried})
+    if len(child_vars) != 1:
+        raise AnalysisError(f"bare access arm: the tracked child default was not identified ({child_vars})")
+    child = child_vars[0]
     for arm in cs.arms:
         for k, c in enumerate(arm.constructs):
             if c.cls not in EXPECTED_PERM:
                 raise AnalysisError(f"constructor {c.cls} in arm {arm.name} has no expected permission entry")
             want = EXPECTED_PERM[c.cls]
-            ok = c.perm == want
+            want = child if want == "child_permission" else want
+            ok = (c.perm.replace('"', "'") if c.perm else c.perm) == want
             rep.ob(f"arm={arm.name} constructs {c.cls}#{k} permission", ok,
                    (f"{c.cls} receives {c.perm or 'the default (public)'}" if ok else
                     f"{c.cls} is constructed with permission `{c.perm}` but must receive `{want}` "
-                    f"({'the tracked default for components/bindings' if want == 'child_permission' else 'the scope default'}): "
+                    f"({'the tracked default for components/bindings' if want == child else 'the scope default'}): "
                     f"entities of this kind get the wrong accessibility when the two differ"),
                    py.nloc(c.node))
     # get_mod_procs passes the interface's permission
     g = py.func("sourceform.get_mod_procs")
-    ok = "FortranModuleProcedureReference(item, parent, parent.permission)" in ast.unparse(g)
+    ctor = [c for c in py.walk_calls(g) if call_name(c) == "FortranModuleProcedureReference"]
+    init = py.func("FortranModuleProcedureReference.__init__")
+    ok = bool(ctor) and ast.unparse(astq.bind_args(ctor[0], init, skip_self=True).get("inherited_permission", ast.Constant(value=None))).endswith(".permission")
     rep.ob("get_mod_procs passes parent.permission", ok, "", py.nloc(g))
-    # initial child_permission
-    init = [st for st in cs.fn.body if isinstance(st, ast.Assign) and ast.unparse(st.targets[0]) == "child_permission"]
-    ok = len(init) == 1 and ast.unparse(init[0].value).replace('"', "'") == \
-        "'public' if isinstance(self, FortranType) else self.permission"
+    # initial child default
+    pre = cs.fn.body[:cs.fn.body.index(cs.loop)]
+    pev = astq.trace_block(pre, cs.fn, res)
+    vt, vn = _values(py, cs, pev, child, True), _values(py, cs, pev, child, False)
+    ok = bool(vt) and bool(vn) and set(vt) == {"'public'"} and set(vn) == {"self.permission"}
     rep.ob("child default starts public in a type, scope default elsewhere", ok,
-           "child_permission = 'public' if isinstance(self, FortranType) else self.permission" if ok else
-           f"initial child default is `{ast.unparse(init[0].value) if init else '?'}`", py.nloc(init[0]) if init else py.nloc(cs.fn))
-    sub = [st for st in cs.fn.body if isinstance(st, ast.If) and "FortranSubmodule" in ast.unparse(st.test)]
-    ok = bool(sub) and "self.permission = 'private'" in ast.unparse(sub[0])
-    rep.ob("submodules start private", ok, "", py.nloc(sub[0]) if sub else py.nloc(cs.fn))
+           f"{child} = 'public' in a type, self.permission elsewhere" if ok else
+           f"initial child default is {vt} in a type and {vn} elsewhere", py.nloc(cs.loop))
+    sub = [e for e in pev if e.kind == "assign" and e.target == "self.permission" and any("FortranSubmodule" in c and not c.startswith("not") for c in e.cond_texts())]
+    ok = bool(sub) and ast.unparse(sub[0].value).replace('"', "'") == "'private'"
+    rep.ob("submodules start private", ok, "", py.nloc(sub[0].node) if sub else py.nloc(cs.fn))
     # contains arm resets the child default for types
     a = cs.arm_by_literal("contains")
-    t = ast.unparse(ast.Module(body=a.body, type_ignores=[]))
-    ok = re.search(r"if isinstance\(self, FortranType\):\s+child_permission = 'public'", t) is not None
+    aev = astq.trace_block(a.body, cs.fn, res)
+    vt, vn = _values(py, cs, aev, child, True), _values(py, cs, aev, child, False)
+    ok = bool(vt) and set(vt) == {"'public'"} and set(vn) <= {"self.permission"}
     rep.ob("CONTAINS resets the binding default to public in a type", ok,
            "the component default does not leak into the type-bound procedure part" if ok else
-           "the child default is not reset at CONTAINS: a bare PRIVATE among the components makes bindings private",
-           py.nloc(a.test))
+           f"at CONTAINS the child default becomes {vt or 'unchanged'} in a type: a bare PRIVATE among the components makes "
+           f"bindings private", py.nloc(a.test))
     # bare access statement
-    b = cs.arm_by_literal("private")
-    t = ast.unparse(ast.Module(body=b.body, type_ignores=[]))
-    ok = set(b.literals) == {"public", "private", "protected"} and "child_permission = line_lower" in t and \
-        re.search(r"if not isinstance\(self, FortranType\):\s+self\.permission = line_lower", t) is not None
+    vt, vn = _values(py, cs, bev, child, True), _values(py, cs, bev, child, False)
+    pt, pn = _values(py, cs, bev, "self.permission", True), _values(py, cs, bev, "self.permission", False)
+    lv = cs.lower_var
+    ok = set(b.literals) == {"public", "private", "protected"} and set(vt) == {lv} and set(vn) == {lv} and not pt and set(pn) == {lv}
     rep.ob("bare access statement sets the child default (and the unit default outside types)", ok,
            "inside a type only the component/binding default changes" if ok else
-           "bare access statement handling changed", py.nloc(b.test))
+           f"bare access statement: child default <- {vt} / {vn} (type / elsewhere), unit default <- {pt} / {pn}", py.nloc(b.test))
 
 
 def r2_declaration_attributes(ctx, rep):
     py = ctx.py
 
-    def const_sets(fn, varname_pat):
+    def access_tests(fn):
+        """(values, compare node) of membership tests against a constant collection containing public/private"""
         out = []
+        env = py.module_env("sourceform")
         for n in ast.walk(fn):
-            if isinstance(n, ast.Compare) and len(n.ops) == 1 and isinstance(n.ops[0], ast.In) and \
-                    isinstance(n.comparators[0], (ast.List, ast.Tuple)) and re.search(varname_pat, ast.unparse(n.left)):
-                vals = {e.value for e in n.comparators[0].elts if isinstance(e, ast.Constant)}
-                if vals & {"public", "private"}:
-                    out.append((vals, n))
+            if isinstance(n, ast.Compare) and len(n.ops) == 1 and isinstance(n.ops[0], ast.In):
+                v = py.eval_const(n.comparators[0], env)
+                if isinstance(v, (list, tuple, set, frozenset)) and {"public", "private"} <= set(v):
+                    out.append((set(v), n))
         return out
 
-    for q, pat, want in (("sourceform.line_to_variables", r"tmp_attrib_lower", {"public", "private", "protected"}),
-                         ("FortranType._initialize", r"attrib_lower", {"public", "private"}),
-                         ("FortranBoundProcedure._initialize", r"attribute", {"public", "private"})):
+    for q, want in (("sourceform.line_to_variables", {"public", "private", "protected"}),
+                    ("FortranType._initialize", {"public", "private"}),
+                    ("FortranBoundProcedure._initialize", {"public", "private"})):
         fn = py.func(q)
-        sets = const_sets(fn, pat)
+        sets = access_tests(fn)
         if not sets:
             raise AnalysisError(f"{q}: access attribute test not found")
         vals, node = sets[0]
         ok = vals == want
-        # and the branch assigns the permission
-        par = py.parents[node]
-        assigns = isinstance(par, ast.If) and re.search(r"permission = ", ast.unparse(ast.Module(body=par.body, type_ignores=[])))
+        # and the branch assigns the permission from the tested text
+        ev = astq.trace(fn)
+        tested = ast.unparse(node.left)
+        assigns = [e for e in ev if e.kind == "assign" and e.target and e.target.split(".")[-1] == "permission" and e.value is not None
+                   and any(ast.unparse(node) in c and not c.startswith("not") for c in e.cond_texts())]
         rep.ob(f"{q} access attributes", ok and bool(assigns),
                f"recognises {sorted(vals)} and assigns the permission" if ok and assigns else
                f"recognises {sorted(vals)} (expected {sorted(want)})", py.nloc(node))
         # the compared text is normalised: lower-cased and free of surrounding blanks
-        var = ast.unparse(node.left)
-        defs = [ast.unparse(n.value) for n in ast.walk(fn) if isinstance(n, ast.Assign)
-                and ast.unparse(n.targets[0]) == var]
-        norm = any(".lower()" in d and (".strip()" in d or ".replace(' ', '')" in d) for d in defs)
+        exprs = astq.expand_locals(node.left, fn, depth=4)
+        calls = {c.func.attr for e in exprs for c in ast.walk(e) if isinstance(c, ast.Call) and isinstance(c.func, ast.Attribute)}
+        norm = bool(calls & {"lower", "casefold"}) and (bool(calls & {"strip"}) or any(
+            isinstance(c, ast.Call) and isinstance(c.func, ast.Attribute) and c.func.attr == "replace" and [ast.unparse(a) for a in c.args] == ["' '", "''"]
+            for e in exprs for c in ast.walk(e)))
         rep.ob(f"{q}: attribute text is stripped and lower-cased before the test", norm,
-               f"{var} = {defs[0] if defs else '?'}" if norm else
-               f"`{var}` is defined as {defs}: an attribute written after a comma and a blank (`type, abstract, private :: t`) "
-               f"keeps the blank and no longer equals 'private'", py.nloc(node))
-    # lowered + blanks removed before the test in line_to_variables
-    fn = py.func("sourceform.line_to_variables")
-    ok = "tmp_attrib.lower().replace(' ', '')" in ast.unparse(fn)
-    rep.ob("line_to_variables lower-cases attributes before comparing", ok, "", py.nloc(fn))
+               f"{tested} is lower-cased and stripped" if norm else
+               f"`{tested}` is defined as {[ast.unparse(e) for e in exprs[1:]]}: an attribute written after a comma and a blank "
+               f"(`type, abstract, private :: t`) keeps the blank and no longer equals 'private'", py.nloc(node))
 
 
 ATTR_LISTS = ["functions", "subroutines", "types", "interfaces", "absinterfaces"]
@@ -147,7 +215,9 @@ def r3_access_statements(ctx, rep):
            "no permission is assigned while reading the statement; application is deferred" if ok else
            "the ATTRIB arm assigns permissions directly: an access statement before the declaration is lost",
            py.nloc(a.test))
-    ok = "name.strip().lower()" in ast.unparse(body)
+    fake = ast.FunctionDef(name="arm", args=cs.fn.args, body=a.body, decorator_list=[], lineno=0, col_offset=0)
+    ok = bool(records) and all(any(isinstance(c, ast.Call) and isinstance(c.func, ast.Attribute) and c.func.attr in ("lower", "casefold")
+                                   for e in astq.expand_locals(r.func.value.slice, fake) for c in ast.walk(e)) for r in records)
     rep.ob("ATTRIB arm lower-cases recorded names", ok, "", py.nloc(a.test))
     # every class owning attr_dict reaches process_attribs from _cleanup
     owners = [c for c in py.classes if not c.startswith("External") and "attr_dict" in py.init_attrs(c)]
@@ -155,34 +225,53 @@ def r3_access_statements(ctx, rep):
                                          for t in py.modules.values() for n in ast.walk(t))]
     if len(concrete) < 5:
         raise AnalysisError("classes owning attr_dict not found")
+
+    def calls_super_cleanup(fn) -> bool:
+        return any(isinstance(c, ast.Call) and isinstance(c.func, ast.Attribute) and c.func.attr == "_cleanup"
+                   and isinstance(c.func.value, ast.Call) and call_name(c.func.value) == "super" for c in ast.walk(fn))
+
     for c in sorted(concrete):
         r = py.resolve_method(c, "_cleanup")
         reached = False
         seen = 0
         while r and seen < 6:
             owner, fn = r
-            t = ast.unparse(fn)
-            if "self.process_attribs()" in t:
+            if any(isinstance(x, ast.Call) and call_name(x) == "self.process_attribs" for x in ast.walk(fn)):
                 reached = True
                 break
-            r = py.resolve_method(c, "_cleanup", after=owner) if "super()._cleanup()" in t else None
+            r = py.resolve_method(c, "_cleanup", after=owner) if calls_super_cleanup(fn) else None
             seen += 1
         rep.ob(f"{c}._cleanup reaches process_attribs", reached,
                "recorded access statements are applied when the unit ends" if reached else
                f"{c} records access statements but its _cleanup never calls process_attribs", py.nloc(py.resolve_method(c, "_cleanup")[1]))
     # FortranProcedure._cleanup: attributes are applied before dummy arguments leave `variables`
     fp = py.func("FortranProcedure._cleanup")
-    first = [s for s in fp.body if not (isinstance(s, ast.Expr) and isinstance(s.value, ast.Constant))][0]
-    ok = "super()._cleanup()" in ast.unparse(first)
+    ev = astq.trace(fp)
+    sup = [i for i, e in enumerate(ev) if e.kind == "call" and isinstance(e.node.func, ast.Attribute) and e.node.func.attr == "_cleanup"
+           and isinstance(e.node.func.value, ast.Call) and call_name(e.node.func.value) == "super"]
+    rem = [i for i, e in enumerate(ev) if (e.kind == "call" and call_name(e.node) in ("self.variables.remove", "self.variables.pop"))
+           or (e.kind == "assign" and e.target == "self.variables")]
+    ok = bool(sup) and (not rem or sup[0] < min(rem))
     rep.ob("FortranProcedure._cleanup applies attribute statements before matching arguments", ok,
            "super()._cleanup() (process_attribs) runs while dummy arguments are still in self.variables" if ok else
            "dummy arguments are removed from self.variables before process_attribs runs: attribute statements "
            "naming a dummy argument (intent(in) :: n) are silently dropped", py.nloc(fp))
     # process_attribs iterates entities, same lists as public_list
     pa = py.func("FortranCodeUnit.process_attribs")
-    loops = [n for n in pa.body if isinstance(n, ast.For)]
-    ent_loop = [n for n in loops if "self.iterator(" in ast.unparse(n.iter)]
-    ok = bool(ent_loop) and "self.attr_dict[item.name.lower()]" in ast.unparse(ent_loop[0])
+    loops = [n for n in ast.walk(pa) if isinstance(n, ast.For)]
+    ent_loop = [n for n in loops if isinstance(n.iter, ast.Call) and call_name(n.iter) == "self.iterator"]
+
+    def looks_up_by_name(loop: ast.For) -> bool:
+        v = ast.unparse(loop.target)
+        for n in ast.walk(loop):
+            if isinstance(n, ast.Subscript) and ast.unparse(n.value) == "self.attr_dict" and f"{v}.name" in ast.unparse(n.slice) \
+                    and ".lower()" in ast.unparse(n.slice):
+                return True
+            if isinstance(n, ast.Call) and call_name(n) in ("self.attr_dict.get", "self.attr_dict.pop") and n.args \
+                    and f"{v}.name" in ast.unparse(n.args[0]) and ".lower()" in ast.unparse(n.args[0]):
+                return True
+        return False
+    ok = bool(ent_loop) and looks_up_by_name(ent_loop[0])
     collapsed = [n for n in ast.walk(pa) if isinstance(n, ast.DictComp) and ".name.lower()" in ast.unparse(n.key)
                  and "iterator(" in ast.unparse(n)]
     rep.ob("process_attribs iterates entities and looks attributes up by their name", ok and not collapsed,
@@ -191,20 +280,20 @@ def r3_access_statements(ctx, rep):
            "entities are first collapsed into a name -> entity mapping: a derived type and the generic interface "
            "of the same name share one key and only one of them receives the access statement", py.nloc(pa))
     if ent_loop:
-        lists = [a.value for c in py.walk_calls(ent_loop[0].iter) for a in c.args if isinstance(a, ast.Constant)]
+        lists = [x.value for x in ent_loop[0].iter.args if isinstance(x, ast.Constant)]
         ok = lists == ATTR_LISTS
         rep.ob("process_attribs entity lists (types before interfaces)", ok, f"iterates {lists}", py.nloc(ent_loop[0]))
-        pl = [n for n in ast.walk(pa) if isinstance(n, ast.Assign) and ast.unparse(n.targets[0]) == "self.public_list"]
-        pl_lists = [a.value for c in py.walk_calls(pl[0].value) if call_name(c) == "self.iterator"
-                    for a in c.args if isinstance(a, ast.Constant)] if pl else []
+        pl = [v for _, v in astq.assignments(pa, "self.public_list") if v is not None]
+        pl_lists = [x.value for c in py.walk_calls(pl[0]) if call_name(c) == "self.iterator"
+                    for x in c.args if isinstance(x, ast.Constant)] if pl else []
         ok = set(pl_lists) == set(lists) | {"variables"}
         rep.ob("public_list iterates the same lists plus variables", ok, f"public_list from {pl_lists}", py.nloc(pa))
-        t = ast.unparse(pl[0].value) if pl else ""
-        ok = "item.permission == 'public'" in t and "'public' in attr" in t
+        t = ast.unparse(pl[0]).replace('"', "'") if pl else ""
+        ok = ".permission == 'public'" in t and "'public' in " in t
         rep.ob("public_list = public entities + leftover names declared public (re-export)", ok, "", py.nloc(pa))
     var_loop = [n for n in loops if ast.unparse(n.iter) == "self.variables"]
-    ok = bool(var_loop) and "self.attr_dict[var.name.lower()]" in ast.unparse(var_loop[0]) and \
-        "var.permission = attr" in ast.unparse(var_loop[0])
+    ok = bool(var_loop) and looks_up_by_name(var_loop[0]) and any(
+        isinstance(x, ast.Assign) and ast.unparse(x.targets[0]) == f"{ast.unparse(var_loop[0].target)}.permission" for x in ast.walk(var_loop[0]))
     rep.ob("process_attribs applies access statements to variables", ok, "", py.nloc(pa))
 
 
@@ -248,17 +337,25 @@ def r5_interface_and_constructor(ctx, rep):
                "procedure keeps the scope default", py.nloc(py.cls("FortranProcedure").node))
     else:
         p = py.func("FortranProcedure.permission")
-        t = ast.unparse(p)
-        ok = "if self.is_interface_procedure" in t and "return self.parent.permission" in t and "return self._permission" in t
+        ev = astq.trace(p)
+        rets = [e for e in ev if e.kind == "return" and e.value is not None]
+        via_parent = [e for e in rets if ast.unparse(e.value).endswith("parent.permission")
+                      and any("is_interface_procedure" in c and not c.startswith("not") for c in e.cond_texts())]
+        own = [e for e in rets if ast.unparse(e.value) in ("self._permission",)]
+        ok = bool(via_parent) and bool(own)
         rep.ob("interface procedures take the interface's permission", ok, "", py.nloc(p))
     ip = py.func("FortranProcedure.is_interface_procedure")
-    ok = "isinstance(self.parent, FortranInterface) and (not self.parent.generic)" in ast.unparse(ip)
+    rtxt = " ".join(ast.unparse(r) for r in astq.returns(ip))
+    ok = "isinstance(self.parent, FortranInterface)" in rtxt and "not self.parent.generic" in rtxt and " and " in rtxt
     rep.ob("is_interface_procedure = parent is a non-generic interface", ok, "", py.nloc(ip))
     tc = py.func("FortranType.correlate")
-    ok = "self.constructor.permission = self.permission" in ast.unparse(tc)
+    asg = [v for _, v in astq.assignments(tc, "self.constructor.permission") if v is not None]
+    ok = bool(asg) and all(ast.unparse(v) == "self.permission" for v in asg)
     rep.ob("structure constructor takes the type's permission", ok, "", py.nloc(tc))
     fb = py.func("FortranBase.__init__")
-    ok = "self.permission = inherited_permission.lower()" in ast.unparse(fb)
+    asg = [v for _, v in astq.assignments(fb, "self.permission") if v is not None]
+    ok = bool(asg) and all(any(isinstance(c, ast.Call) and isinstance(c.func, ast.Attribute) and c.func.attr in ("lower", "casefold")
+                               and "inherited_permission" in ast.unparse(c.func.value) for c in ast.walk(v)) for v in asg)
     rep.ob("inherited permission stored lower-case", ok, "", py.nloc(fb))
 
 
